@@ -133,22 +133,21 @@ theorem NoDangling.assign {c : Spec} (h : NoDangling c) (s : Nat) (t : Tag) (n :
   · rename_i hd; exact h.setTag ⟨s, t, n, f, v⟩ hd
   · exact h
 
+theorem NoDangling.addDecl {c : Spec} (h : NoDangling c) (d : Decl) (tag : Option Tag) :
+    NoDangling (c.addDecl d tag) := by
+  cases tag with
+  | none => exact h.setDecl d
+  | some t => exact (h.setDecl d).setTag _ (Spec.hasDecl_setDecl_self c d)
+
 /-- every effect keeps the database free of dangling tags -/
 theorem NoDangling.apply {c : Spec} (h : NoDangling c) (e : Eff) : NoDangling (applyDb e c) := by
   cases e with
-  | dbDeclare d tag =>
-    cases tag with
-    | none => exact h.setDecl d
-    | some t => exact (h.setDecl d).setTag _ (Spec.hasDecl_setDecl_self c d)
-  | dbUndeclare s n v f => exact h.delDecl s n v f
-  | dbAssign s t n f v => exact h.assign s t n f v
-  | dbUnassign s t n f => exact h.delTag s t n f
-  | memAdd _ _ => exact h
-  | memRemove _ _ _ _ => exact h
-  | memAssign _ _ _ _ _ => exact h
-  | memUnassign _ _ _ _ => exact h
-  | save _ _ => exact h
+  | declare d tag => exact h.addDecl d tag
+  | undeclare s n v f => exact h.delDecl s n v f
+  | assign s t n f v => exact h.assign s t n f v
+  | unassign s t n f => exact h.delTag s t n f
   | rmTree _ => exact h
+  | copyExtra _ => exact h
 
 theorem KeysUnique.setDecl {c : Spec} (h : KeysUnique c) (d : Decl) : KeysUnique (c.setDecl d) := by
   refine ⟨?_, h.tag⟩
@@ -189,21 +188,20 @@ theorem KeysUnique.assign {c : Spec} (h : KeysUnique c) (s : Nat) (t : Tag) (n :
   · exact h.setTag _
   · exact h
 
+theorem KeysUnique.addDecl {c : Spec} (h : KeysUnique c) (d : Decl) (tag : Option Tag) :
+    KeysUnique (c.addDecl d tag) := by
+  cases tag with
+  | none => exact h.setDecl d
+  | some t => exact (h.setDecl d).setTag _
+
 theorem KeysUnique.apply {c : Spec} (h : KeysUnique c) (e : Eff) : KeysUnique (applyDb e c) := by
   cases e with
-  | dbDeclare d tag =>
-    cases tag with
-    | none => exact h.setDecl d
-    | some t => exact (h.setDecl d).setTag _
-  | dbUndeclare s n v f => exact h.delDecl s n v f
-  | dbAssign s t n f v => exact h.assign s t n f v
-  | dbUnassign s t n f => exact h.delTag s t n f
-  | memAdd _ _ => exact h
-  | memRemove _ _ _ _ => exact h
-  | memAssign _ _ _ _ _ => exact h
-  | memUnassign _ _ _ _ => exact h
-  | save _ _ => exact h
+  | declare d tag => exact h.addDecl d tag
+  | undeclare s n v f => exact h.delDecl s n v f
+  | assign s t n f v => exact h.assign s t n f v
+  | unassign s t n f => exact h.delTag s t n f
   | rmTree _ => exact h
+  | copyExtra _ => exact h
 
 /-- the invariant of the database content -/
 structure DbInv (c : Spec) : Prop where
@@ -221,39 +219,16 @@ theorem DbInv.foldl {c : Spec} (h : DbInv c) (es : List Eff) : DbInv (es.foldl (
 /-! ## the footprint of an effect -/
 
 def Eff.touchesDecl : Eff → Decl → Bool
-  | .dbDeclare d _, x => x.sameKey d
-  | .dbUndeclare s n v f, x => x.hasKey s n v f
+  | .declare d _, x => x.sameKey d
+  | .undeclare s n v f, x => x.hasKey s n v f
   | _, _ => false
 
 def Eff.touchesTag : Eff → TagRec → Bool
-  | .dbDeclare d (some t), r => r.hasKey d.stack t d.name d.flav
-  | .dbUndeclare s n v f, r => r.pointsAt s n v f
-  | .dbAssign s t n f _, r => r.hasKey s t n f
-  | .dbUnassign s t n f, r => r.hasKey s t n f
+  | .declare d (some t), r => r.hasKey d.stack t d.name d.flav
+  | .undeclare s n v f, r => r.pointsAt s n v f
+  | .assign s t n f _, r => r.hasKey s t n f
+  | .unassign s t n f, r => r.hasKey s t n f
   | _, _ => false
-
-theorem applyDb_frame_decl (e : Eff) (c : Spec) (x : Decl) (h : e.touchesDecl x = false) :
-    x ∈ (applyDb e c).decls ↔ x ∈ c.decls := by
-  cases e with
-  | dbDeclare d tag =>
-    have hx : x ≠ d := by
-      rintro rfl
-      have : x.sameKey x = true := by simp [Decl.sameKey_iff]
-      simp [Eff.touchesDecl, this] at h
-    have : x ∈ (c.setDecl d).decls ↔ x ∈ c.decls := by
-      rw [Spec.mem_setDecl]; simp only [Eff.touchesDecl] at h; simp [hx, h]
-    cases tag <;> simpa [applyDb] using this
-  | dbUndeclare s n v f =>
-    simp only [Eff.touchesDecl] at h
-    simp [applyDb, Spec.mem_delDecl_decls, h]
-  | dbAssign s t n f v => simp only [applyDb, Spec.assign]; split <;> simp
-  | dbUnassign s t n f => simp [applyDb]
-  | memAdd _ _ => simp [applyDb]
-  | memRemove _ _ _ _ => simp [applyDb]
-  | memAssign _ _ _ _ _ => simp [applyDb]
-  | memUnassign _ _ _ _ => simp [applyDb]
-  | save _ _ => simp [applyDb]
-  | rmTree _ => simp [applyDb]
 
 theorem Spec.mem_setTag_of_not_sameKey {c : Spec} {r x : TagRec} (h : x.sameKey r = false) :
     x ∈ (c.setTag r).tags ↔ x ∈ c.tags := by
@@ -263,92 +238,107 @@ theorem Spec.mem_setTag_of_not_sameKey {c : Spec} {r x : TagRec} (h : x.sameKey 
     rw [this] at h; exact Bool.noConfusion h
   rw [Spec.mem_setTag]; simp [hx, h]
 
+theorem Spec.mem_setDecl_of_not_sameKey {c : Spec} {d x : Decl} (h : x.sameKey d = false) :
+    x ∈ (c.setDecl d).decls ↔ x ∈ c.decls := by
+  have hx : x ≠ d := by
+    rintro rfl
+    have : x.sameKey x = true := by simp [Decl.sameKey_iff]
+    rw [this] at h; exact Bool.noConfusion h
+  rw [Spec.mem_setDecl]; simp [hx, h]
+
+@[simp] theorem Spec.decls_addDecl_some (c : Spec) (d : Decl) (t : Tag) :
+    (c.addDecl d (some t)).decls = (c.setDecl d).decls := rfl
+@[simp] theorem Spec.addDecl_none (c : Spec) (d : Decl) : c.addDecl d none = c.setDecl d := rfl
+
+theorem applyDb_frame_decl (e : Eff) (c : Spec) (x : Decl) (h : e.touchesDecl x = false) :
+    x ∈ (applyDb e c).decls ↔ x ∈ c.decls := by
+  cases e with
+  | declare d tag =>
+    simp only [Eff.touchesDecl] at h
+    cases tag <;> simpa [applyDb] using Spec.mem_setDecl_of_not_sameKey h
+  | undeclare s n v f =>
+    simp only [Eff.touchesDecl] at h
+    simp [applyDb, Spec.mem_delDecl_decls, h]
+  | assign s t n f v => simp only [applyDb, Spec.assign]; split <;> simp
+  | unassign s t n f => simp [applyDb]
+  | rmTree _ => simp [applyDb]
+  | copyExtra _ => simp [applyDb]
+
 theorem applyDb_frame_tag (e : Eff) (c : Spec) (x : TagRec) (h : e.touchesTag x = false) :
     x ∈ (applyDb e c).tags ↔ x ∈ c.tags := by
   cases e with
-  | dbDeclare d tag =>
+  | declare d tag =>
     cases tag with
     | none => simp [applyDb]
     | some t =>
       simp only [Eff.touchesTag] at h
-      simp only [applyDb]
+      simp only [applyDb, Spec.addDecl]
       rw [Spec.mem_setTag_of_not_sameKey (by simpa [TagRec.sameKey] using h)]
       simp
-  | dbUndeclare s n v f =>
+  | undeclare s n v f =>
     simp only [Eff.touchesTag] at h
     simp [applyDb, Spec.mem_delDecl_tags, h]
-  | dbAssign s t n f v =>
+  | assign s t n f v =>
     simp only [Eff.touchesTag] at h
     simp only [applyDb, Spec.assign]; split
     · exact Spec.mem_setTag_of_not_sameKey (by simpa [TagRec.sameKey] using h)
     · exact Iff.rfl
-  | dbUnassign s t n f =>
+  | unassign s t n f =>
     simp only [Eff.touchesTag] at h
     simp [applyDb, Spec.mem_delTag, h]
-  | memAdd _ _ => simp [applyDb]
-  | memRemove _ _ _ _ => simp [applyDb]
-  | memAssign _ _ _ _ _ => simp [applyDb]
-  | memUnassign _ _ _ _ => simp [applyDb]
-  | save _ _ => simp [applyDb]
   | rmTree _ => simp [applyDb]
+  | copyExtra _ => simp [applyDb]
 
 /-- an effect that stays within product `n`, flavor `f`, the versions `vs` and the tags `ts` -/
 def Within (n : Name) (f : Flav) (vs : Ver → Prop) (ts : Tag → Prop) : Eff → Prop
-  | .dbDeclare d tag => d.name = n ∧ d.flav = f ∧ vs d.ver ∧ ∀ t, tag = some t → ts t
-  | .dbUndeclare _ n' v f' => n' = n ∧ f' = f ∧ vs v
-  | .dbAssign _ t n' f' _ => n' = n ∧ f' = f ∧ ts t
-  | .dbUnassign _ t n' f' => n' = n ∧ f' = f ∧ ts t
-  | _ => True
+  | .declare d tag => d.name = n ∧ d.flav = f ∧ vs d.ver ∧ ∀ t, tag = some t → ts t
+  | .undeclare _ n' v f' => n' = n ∧ f' = f ∧ vs v
+  | .assign _ t n' f' _ => n' = n ∧ f' = f ∧ ts t
+  | .unassign _ t n' f' => n' = n ∧ f' = f ∧ ts t
+  | .rmTree _ => True
+  | .copyExtra _ => True
 
 theorem Within.touchesDecl {n : Name} {f : Flav} {vs : Ver → Prop} {ts : Tag → Prop} {e : Eff}
     (h : Within n f vs ts e) {x : Decl} (hx : e.touchesDecl x = true) : x.name = n ∧ x.flav = f ∧ vs x.ver := by
   cases e with
-  | dbDeclare d tag =>
+  | declare d tag =>
     simp only [Eff.touchesDecl, Decl.sameKey_iff] at hx
     obtain ⟨h1, h2, h3, _⟩ := h
     exact ⟨hx.2.1 ▸ h1, hx.2.2.2 ▸ h2, hx.2.2.1 ▸ h3⟩
-  | dbUndeclare s n' v f' =>
+  | undeclare s n' v f' =>
     simp only [Eff.touchesDecl, Decl.hasKey_iff] at hx
     obtain ⟨h1, h2, h3⟩ := h
     exact ⟨hx.2.1 ▸ h1, hx.2.2.2 ▸ h2, hx.2.2.1 ▸ h3⟩
-  | dbAssign _ _ _ _ _ => simp [Eff.touchesDecl] at hx
-  | dbUnassign _ _ _ _ => simp [Eff.touchesDecl] at hx
-  | memAdd _ _ => simp [Eff.touchesDecl] at hx
-  | memRemove _ _ _ _ => simp [Eff.touchesDecl] at hx
-  | memAssign _ _ _ _ _ => simp [Eff.touchesDecl] at hx
-  | memUnassign _ _ _ _ => simp [Eff.touchesDecl] at hx
-  | save _ _ => simp [Eff.touchesDecl] at hx
+  | assign _ _ _ _ _ => simp [Eff.touchesDecl] at hx
+  | unassign _ _ _ _ => simp [Eff.touchesDecl] at hx
   | rmTree _ => simp [Eff.touchesDecl] at hx
+  | copyExtra _ => simp [Eff.touchesDecl] at hx
 
 theorem Within.touchesTag {n : Name} {f : Flav} {vs : Ver → Prop} {ts : Tag → Prop} {e : Eff}
     (h : Within n f vs ts e) {x : TagRec} (hx : e.touchesTag x = true) :
     x.name = n ∧ x.flav = f ∧ (ts x.tag ∨ vs x.ver) := by
   cases e with
-  | dbDeclare d tag =>
+  | declare d tag =>
     cases tag with
     | none => simp [Eff.touchesTag] at hx
     | some t =>
       simp only [Eff.touchesTag, TagRec.hasKey_iff] at hx
       obtain ⟨h1, h2, _, h4⟩ := h
       exact ⟨hx.2.2.1 ▸ h1, hx.2.2.2 ▸ h2, Or.inl (hx.2.1 ▸ h4 t rfl)⟩
-  | dbUndeclare s n' v f' =>
+  | undeclare s n' v f' =>
     simp only [Eff.touchesTag, TagRec.pointsAt_iff] at hx
     obtain ⟨h1, h2, h3⟩ := h
     exact ⟨hx.2.1 ▸ h1, hx.2.2.1 ▸ h2, Or.inr (hx.2.2.2 ▸ h3)⟩
-  | dbAssign s t n' f' v =>
+  | assign s t n' f' v =>
     simp only [Eff.touchesTag, TagRec.hasKey_iff] at hx
     obtain ⟨h1, h2, h3⟩ := h
     exact ⟨hx.2.2.1 ▸ h1, hx.2.2.2 ▸ h2, Or.inl (hx.2.1 ▸ h3)⟩
-  | dbUnassign s t n' f' =>
+  | unassign s t n' f' =>
     simp only [Eff.touchesTag, TagRec.hasKey_iff] at hx
     obtain ⟨h1, h2, h3⟩ := h
     exact ⟨hx.2.2.1 ▸ h1, hx.2.2.2 ▸ h2, Or.inl (hx.2.1 ▸ h3)⟩
-  | memAdd _ _ => simp [Eff.touchesTag] at hx
-  | memRemove _ _ _ _ => simp [Eff.touchesTag] at hx
-  | memAssign _ _ _ _ _ => simp [Eff.touchesTag] at hx
-  | memUnassign _ _ _ _ => simp [Eff.touchesTag] at hx
-  | save _ _ => simp [Eff.touchesTag] at hx
   | rmTree _ => simp [Eff.touchesTag] at hx
+  | copyExtra _ => simp [Eff.touchesTag] at hx
 
 /-! ## what the commands emit -/
 
@@ -370,11 +360,7 @@ theorem doUnassign_trOK {t : Tag} {s : Nat} {na : Bool} {p : Proc} (ht : ts t)
   unfold doUnassign
   split
   · exact h
-  · have h1 : TrOK (Within n f vs ts) (p.emit (.dbUnassign s t n f)) := h.emit ⟨rfl, rfl, ht⟩
-    dsimp only
-    split
-    · exact (h1.emit (by trivial)).emit (by trivial)
-    · exact h1
+  · exact h.emit (e := .unassign s t n f) ⟨rfl, rfl, ht⟩
 
 theorem purge_trOK {t : Tag} (ht : ts t) (ds : List Decl) {p : Proc}
     (h : TrOK (Within n f vs ts) p) : TrOK (Within n f vs ts) (purge f t n ds p) := by
@@ -395,7 +381,7 @@ theorem assignTag_trOK {t : Tag} {v : Ver} {stacks : List Nat} {p : Proc} (ht : 
   · exact h
   · split
     · exact h
-    · exact ((h.emit (e := .dbAssign _ t n f v) ⟨rfl, rfl, ht⟩).emit (by trivial)).emit (by trivial)
+    · exact h.emit (e := .assign _ t n f v) ⟨rfl, rfl, ht⟩
 
 theorem unassignTag_trOK {nst : Nat} {t : Tag} {v : Option Ver} {st : Option Nat} {na : Bool} {p : Proc} (ht : ts t)
     (h : TrOK (Within n f vs ts) p) : TrOK (Within n f vs ts) (unassignTag nst f t n v st na p).2 := by
@@ -421,14 +407,14 @@ def Cmd.name : Cmd → Name
   | .undeclare a => a.name
   | .assignTag _ _ n _ _ => n
   | .unassignTag _ _ n _ _ _ => n
-  | .remove _ n _ _ _ => n
+  | .remove _ n _ _ _ _ _ => n
   | .query _ => []
 
 /-- the versions whose declaration the command may change -/
 def Cmd.fpVer : Cmd → Ver → Prop
   | .declare a, v => v = a.ver
   | .undeclare a, v => (a.tag = none ∨ a.versionAndTag = true) ∧ ∀ v', a.ver = some v' → v = v'
-  | .remove _ _ v' _ _, v => v = v'
+  | .remove _ _ v' _ _ _ _, v => v = v'
   | _, _ => False
 
 /-- the tags the command may assign or unassign -/
@@ -451,19 +437,18 @@ theorem declareTag_spec {nst : Nat} {a : DeclareArgs} {m : Spec} :
     · cases ht; simp [hat]
     · cases ht
 
-theorem declareFinish_trOK {nst : Nat} {a : DeclareArgs} {r : Resolved} {tag : Option Tag} {rd : Redeclare}
+theorem declareCore_trOK {nst : Nat} {a : DeclareArgs} {r : Resolved} {tag : Option Tag} {rd : Redeclare}
     {p : Proc} {ts : Tag → Prop} (ht : ∀ t, tag = some t → ts t)
     (h : TrOK (Within a.name a.self (fun v => v = a.ver) ts) p) :
-    TrOK (Within a.name a.self (fun v => v = a.ver) ts) (declareFinish nst a r tag rd p).2 := by
-  unfold declareFinish
+    TrOK (Within a.name a.self (fun v => v = a.ver) ts) (declareCore nst a r tag rd p).2 := by
+  unfold declareCore
   dsimp only
   have h1 : TrOK (Within a.name a.self (fun v => v = a.ver) ts)
       (if (rd == .write && !a.noaction) = true then
-        ((p.emit (.dbDeclare ⟨r.target, a.name, a.ver, a.self, r.d, r.table⟩ tag)).emit
-          (.memAdd ⟨r.target, a.name, a.ver, a.self, r.d, r.table⟩ tag)).emit (.save r.target a.self)
+        p.emit (.declare ⟨r.target, a.name, a.ver, a.self, r.d, r.table⟩ tag)
        else p) := by
     split
-    · exact ((h.emit (e := .dbDeclare _ tag) ⟨rfl, rfl, rfl, ht⟩).emit (by trivial)).emit (by trivial)
+    · exact h.emit (e := .declare _ tag) ⟨rfl, rfl, rfl, ht⟩
     · exact h
   split
   · exact h1
@@ -471,6 +456,26 @@ theorem declareFinish_trOK {nst : Nat} {a : DeclareArgs} {r : Resolved} {tag : O
     split
     · exact h1
     · exact assignTag_trOK (ht t rfl) (purgeAll_trOK (ht t rfl) _ h1)
+
+theorem saveExtras_trOK {a : DeclareArgs} {target : Nat} {Q : Eff → Prop} (hQ : ∀ x, Q (.copyExtra x))
+    (es : List (Str × Nat)) {p : Proc} (h : TrOK Q p) : TrOK Q (saveExtras a target es p) := by
+  induction es generalizing p with
+  | nil => exact h
+  | cons e es ih => exact ih (h.emit (hQ _))
+
+theorem declareFinish_trOK {nst : Nat} {a : DeclareArgs} {r : Resolved} {tag : Option Tag} {rd : Redeclare}
+    {p : Proc} {ts : Tag → Prop} (ht : ∀ t, tag = some t → ts t)
+    (h : TrOK (Within a.name a.self (fun v => v = a.ver) ts) p) :
+    TrOK (Within a.name a.self (fun v => v = a.ver) ts) (declareFinish nst a r tag rd p).2 := by
+  have hc := declareCore_trOK (nst := nst) (r := r) (rd := rd) ht h
+  unfold declareFinish
+  split
+  · rename_i p2 heq
+    rw [heq] at hc
+    split
+    · exact hc
+    · exact saveExtras_trOK (fun _ => trivial) _ hc
+  · exact hc
 
 theorem declare_trOK {nst : Nat} {a : DeclareArgs} {p : Proc}
     (h : TrOK (Within a.name a.self (fun v => v = a.ver) (fun t => t = a.tag.getD current)) p) :
@@ -506,7 +511,7 @@ theorem removeVersion_trOK {a : UndeclareArgs} {v : Ver} {s : Nat} {p : Proc} {v
   · exact h
   · split
     · exact h
-    · exact ((h.emit (e := .dbUndeclare s a.name v a.self) ⟨rfl, rfl, hv⟩).emit (by trivial)).emit (by trivial)
+    · exact h.emit (e := .undeclare s a.name v a.self) ⟨rfl, rfl, hv⟩
 
 theorem undeclareVersion_trOK {nst : Nat} {a : UndeclareArgs} {ver : Option Ver} {p : Proc}
     {vs : Ver → Prop} (hv : ∀ v, (∀ v', ver = some v' → v = v') → vs v)
@@ -518,7 +523,9 @@ theorem undeclareVersion_trOK {nst : Nat} {a : UndeclareArgs} {ver : Option Ver}
   · rename_i v hvr
     split
     · exact h
-    · exact removeVersion_trOK (hv v (inferVersion_some hvr)) (untagFirst_trOK h)
+    · split
+      · exact h
+      · exact removeVersion_trOK (hv v (inferVersion_some hvr)) (untagFirst_trOK h)
 
 theorem undeclare_trOK {nst : Nat} {a : UndeclareArgs} {p : Proc}
     (h : TrOK (Within a.name a.self (Cmd.fpVer (.undeclare a)) (fun t => a.tag = some t)) p) :
@@ -536,17 +543,17 @@ theorem undeclare_trOK {nst : Nat} {a : UndeclareArgs} {p : Proc}
       simp [hver]
     · exact unassignTag_trOK ht h
 
-theorem remove_trOK {nst : Nat} {f : Flav} {n : Name} {v : Ver} {rc na : Bool} {p : Proc}
-    (h : TrOK (Within n f (fun v' => v' = v) (fun _ => False)) p) :
-    TrOK (Within n f (fun v' => v' = v) (fun _ => False)) (remove nst f n v rc na p).2 := by
+theorem remove_trOK {nst : Nat} {f : Flav} {n : Name} {v : Ver} {rc na fo : Bool} {su : Option (Ver × Flav × Nat)}
+    {p : Proc} (h : TrOK (Within n f (fun v' => v' = v) (fun _ => False)) p) :
+    TrOK (Within n f (fun v' => v' = v) (fun _ => False)) (remove nst f n v rc na fo su p).2 := by
   unfold remove
   split
   · exact h
   · split
     · exact h
     have hu : TrOK (Within n f (fun v' => v' = v) (fun _ => False))
-        (undeclare nst ⟨f, n, some v, none, none, false, na⟩ p).2 := by
-      have := undeclareVersion_trOK (nst := nst) (a := ⟨f, n, some v, none, none, false, na⟩) (ver := some v)
+        (undeclare nst ⟨f, n, some v, none, none, false, na, fo, su⟩ p).2 := by
+      have := undeclareVersion_trOK (nst := nst) (a := ⟨f, n, some v, none, none, false, na, fo, su⟩) (ver := some v)
         (p := p) (vs := fun v' => v' = v) (fun v' hv => hv v rfl)
         (by intro e he; have := h e he; revert this; cases e <;> simp [Within])
       intro e he
@@ -572,7 +579,7 @@ theorem run_trOK (nst : Nat) (c : Cmd) (p : Proc)
   | undeclare a => exact undeclare_trOK h
   | assignTag f t n v st => exact assignTag_trOK (ts := fun t' => t' = t) rfl h
   | unassignTag f t n v st na => exact unassignTag_trOK (ts := fun t' => t' = t) rfl h
-  | remove f n v rc na => exact remove_trOK h
+  | remove f n v rc na fo su => exact remove_trOK h
   | query f => exact h
 
 /-! ## dry runs emit nothing -/
@@ -595,11 +602,17 @@ theorem unassignTag_noaction (nst : Nat) (f : Flav) (t : Tag) (n : Name) (v : Op
       · rw [doUnassign_noaction]
       · split <;> rfl
 
+theorem declareCore_noaction {nst : Nat} {a : DeclareArgs} (h : a.noaction = true) (r : Resolved)
+    (tag : Option Tag) (rd : Redeclare) (p : Proc) : declareCore nst a r tag rd p = (.ok, p) := by
+  unfold declareCore
+  simp only [h, Bool.not_true, Bool.and_false, Bool.false_eq_true, if_false, if_true]
+  split <;> rfl
+
 theorem declareFinish_noaction {nst : Nat} {a : DeclareArgs} (h : a.noaction = true) (r : Resolved)
     (tag : Option Tag) (rd : Redeclare) (p : Proc) : (declareFinish nst a r tag rd p).2 = p := by
   unfold declareFinish
-  simp only [h, Bool.not_true, Bool.and_false, Bool.false_eq_true, if_false, if_true]
-  split <;> rfl
+  rw [declareCore_noaction h]
+  simp [h]
 
 theorem declare_noaction {nst : Nat} {a : DeclareArgs} (h : a.noaction = true) (p : Proc) :
     (declare nst a p).2 = p := by
@@ -629,7 +642,9 @@ theorem undeclareVersion_noaction {nst : Nat} {a : UndeclareArgs} (h : a.noactio
   · rfl
   · split
     · rfl
-    · rw [removeVersion_noaction h, untagFirst_noaction h]
+    · split
+      · rfl
+      · rw [removeVersion_noaction h, untagFirst_noaction h]
 
 theorem undeclare_noaction {nst : Nat} {a : UndeclareArgs} (h : a.noaction = true) (p : Proc) :
     (undeclare nst a p).2 = p := by
@@ -640,14 +655,14 @@ theorem undeclare_noaction {nst : Nat} {a : UndeclareArgs} (h : a.noaction = tru
     · exact undeclareVersion_noaction h _ _
     · rw [h]; exact unassignTag_noaction _ _ _ _ _ _ _
 
-theorem remove_noaction (nst : Nat) (f : Flav) (n : Name) (v : Ver) (rc : Bool) (p : Proc) :
-    (remove nst f n v rc true p).2 = p := by
+theorem remove_noaction (nst : Nat) (f : Flav) (n : Name) (v : Ver) (rc fo : Bool) (su : Option (Ver × Flav × Nat))
+    (p : Proc) : (remove nst f n v rc true fo su p).2 = p := by
   unfold remove
   split
   · rfl
   · split
     · rfl
-    have hu := undeclare_noaction (nst := nst) (a := ⟨f, n, some v, none, none, false, true⟩) rfl p
+    have hu := undeclare_noaction (nst := nst) (a := ⟨f, n, some v, none, none, false, true, fo, su⟩) rfl p
     split
     · rename_i p1 heq
       rw [heq] at hu
@@ -663,8 +678,625 @@ theorem run_noaction (nst : Nat) (c : Cmd) (h : c.noaction = true) (p : Proc) : 
   | assignTag f t n v st => simp [Cmd.noaction] at h
   | unassignTag f t n v st na =>
     simp only [Cmd.noaction] at h; subst h; exact unassignTag_noaction _ _ _ _ _ _ _
-  | remove f n v rc na =>
-    simp only [Cmd.noaction] at h; subst h; exact remove_noaction _ _ _ _ _ _
+  | remove f n v rc na fo su =>
+    simp only [Cmd.noaction] at h; subst h; exact remove_noaction _ _ _ _ _ _ _ _
   | query f => rfl
+
+/-! ## outcomes -/
+
+@[simp] theorem Proc.db_emit (p : Proc) (e : Eff) : (p.emit e).db = applyDb e p.db := by
+  simp [Proc.db, Proc.emit, List.foldl_append]
+
+@[simp] theorem Proc.mem_emit (p : Proc) (e : Eff) : (p.emit e).mem = applyMem e p.mem := by
+  simp [Proc.mem, Proc.emit, List.foldl_append]
+
+theorem assignTag_outcome (f : Flav) (t : Tag) (n : Name) (v : Ver) (stacks : List Nat) (p : Proc) :
+    (assignTag f t n v stacks p).1 = .ok ∨ (assignTag f t n v stacks p).1 = .notFound := by
+  unfold assignTag
+  split
+  · exact Or.inr rfl
+  · split
+    · exact Or.inr rfl
+    · exact Or.inl rfl
+
+theorem unassignTag_outcome (nst : Nat) (f : Flav) (t : Tag) (n : Name) (v : Option Ver) (st : Option Nat) (na : Bool)
+    (p : Proc) : (unassignTag nst f t n v st na p).1 = .ok ∨ (unassignTag nst f t n v st na p).1 = .notFound := by
+  have hd : ∀ s, (doUnassign f t n s na p).1 = .ok := by intro s; unfold doUnassign; split <;> rfl
+  unfold unassignTag
+  split
+  · split
+    · exact Or.inr rfl
+    · split
+      · exact Or.inl (hd _)
+      · exact Or.inl rfl
+  · split
+    · exact Or.inl (hd _)
+    · split
+      · exact Or.inl (hd _)
+      · split
+        · exact Or.inl rfl
+        · exact Or.inr rfl
+
+theorem declareCore_outcome (nst : Nat) (a : DeclareArgs) (r : Resolved) (tag : Option Tag) (rd : Redeclare) (p : Proc) :
+    (declareCore nst a r tag rd p).1 = .ok ∨ (declareCore nst a r tag rd p).1 = .notFound := by
+  unfold declareCore
+  dsimp only
+  split
+  · exact Or.inl rfl
+  · split
+    · exact Or.inl rfl
+    · exact assignTag_outcome _ _ _ _ _ _
+
+theorem declareFinish_fst (nst : Nat) (a : DeclareArgs) (r : Resolved) (tag : Option Tag) (rd : Redeclare) (p : Proc) :
+    (declareFinish nst a r tag rd p).1 = (declareCore nst a r tag rd p).1 := by
+  unfold declareFinish
+  split
+  · rename_i p2 heq; rw [heq]; split <;> rfl
+  · rfl
+
+theorem declareFinish_outcome (nst : Nat) (a : DeclareArgs) (r : Resolved) (tag : Option Tag) (rd : Redeclare) (p : Proc) :
+    (declareFinish nst a r tag rd p).1 = .ok ∨ (declareFinish nst a r tag rd p).1 = .notFound := by
+  rw [declareFinish_fst]; exact declareCore_outcome _ _ _ _ _ _
+
+theorem saveExtras_db (a : DeclareArgs) (target : Nat) (es : List (Str × Nat)) (p : Proc) :
+    (saveExtras a target es p).db = p.db := by
+  induction es generalizing p with
+  | nil => rfl
+  | cons e es ih => simp only [saveExtras]; rw [ih]; simp [Proc.db, Proc.emit, List.foldl_append, applyDb]
+
+/-- the extra files do not touch the database: the database after `declareFinish` is the one after `declareCore` -/
+theorem declareFinish_db (nst : Nat) (a : DeclareArgs) (r : Resolved) (tag : Option Tag) (rd : Redeclare) (p : Proc) :
+    (declareFinish nst a r tag rd p).2.db = (declareCore nst a r tag rd p).2.db := by
+  unfold declareFinish
+  split
+  · rename_i p2 heq; rw [heq]; split
+    · rfl
+    · exact saveExtras_db _ _ _ _
+  · rfl
+
+/-- `declare` either refuses before doing anything, or acts as `declareFinish` on what it resolved -/
+theorem declare_cases (nst : Nat) (a : DeclareArgs) (p : Proc) :
+    declare nst a p = (.refused, p) ∨
+    ∃ r rd, resolveDeclare nst a p = some r ∧
+      redeclare (p.mem.findDecl r.target a.name a.ver a.self) r.d r.table (declareTag nst a p.mem).isSome a.force
+        (extDiff p a r.target) = rd ∧
+      rd ≠ .refuse ∧ declare nst a p = declareFinish nst a r (declareTag nst a p.mem) rd p := by
+  unfold declare
+  cases hr : resolveDeclare nst a p with
+  | none => exact Or.inl rfl
+  | some r =>
+    dsimp only
+    cases hrd : redeclare (p.mem.findDecl r.target a.name a.ver a.self) r.d r.table (declareTag nst a p.mem).isSome a.force
+        (extDiff p a r.target) with
+    | refuse => exact Or.inl rfl
+    | write => exact Or.inr ⟨r, .write, rfl, hrd, by simp, rfl⟩
+    | keep => exact Or.inr ⟨r, .keep, rfl, hrd, by simp, rfl⟩
+
+/-- a refused `declare` has done nothing -/
+theorem declare_refused {nst : Nat} {a : DeclareArgs} {p : Proc} (h : (declare nst a p).1 = .refused) :
+    (declare nst a p).2 = p := by
+  rcases declare_cases nst a p with hc | ⟨r, rd, _, _, _, hc⟩
+  · rw [hc]
+  · exfalso
+    rw [hc] at h
+    rcases declareFinish_outcome nst a r (declareTag nst a p.mem) rd p with h' | h' <;> rw [h'] at h <;> cases h
+
+theorem removeVersion_outcome (a : UndeclareArgs) (v : Ver) (s : Nat) (p : Proc) :
+    (removeVersion a v s p).1 = .ok ∨ (removeVersion a v s p).1 = .notFound := by
+  unfold removeVersion
+  split
+  · exact Or.inl rfl
+  · split
+    · exact Or.inr rfl
+    · exact Or.inl rfl
+
+theorem undeclareVersion_refused {nst : Nat} {a : UndeclareArgs} {ver : Option Ver} {p : Proc}
+    (h : (undeclareVersion nst a ver p).1 = .refused) : (undeclareVersion nst a ver p).2 = p := by
+  unfold undeclareVersion at h ⊢
+  cases hi : inferVersion nst a ver p.mem with
+  | error o => rfl
+  | ok v =>
+    rw [hi] at h
+    dsimp only at h ⊢
+    cases hf : p.mem.findIn (stacksOf nst a.stack) a.name v a.self with
+    | none => rfl
+    | some prod =>
+      rw [hf] at h
+      dsimp only at h ⊢
+      split
+      · rfl
+      · rename_i hset
+        rw [if_neg hset] at h
+        exfalso
+        rcases removeVersion_outcome a v prod.stack (untagFirst nst a v prod.stack p) with h' | h' <;>
+          rw [h'] at h <;> cases h
+
+theorem undeclare_refused {nst : Nat} {a : UndeclareArgs} {p : Proc} (h : (undeclare nst a p).1 = .refused) :
+    (undeclare nst a p).2 = p := by
+  unfold undeclare at h ⊢
+  cases ht : a.tag with
+  | none => rw [ht] at h; exact undeclareVersion_refused h
+  | some t =>
+    rw [ht] at h
+    dsimp only at h ⊢
+    cases hv : a.versionAndTag with
+    | true => rw [hv] at h; simp only [if_true] at h ⊢; exact undeclareVersion_refused h
+    | false =>
+      rw [hv] at h
+      simp only [Bool.false_eq_true, if_false] at h ⊢
+      exfalso
+      rcases unassignTag_outcome nst a.self t a.name a.ver a.stack a.noaction p with h' | h' <;> rw [h'] at h <;> cases h
+
+theorem remove_refused {nst : Nat} {f : Flav} {n : Name} {v : Ver} {rc na fo : Bool} {su : Option (Ver × Flav × Nat)}
+    {p : Proc} (h : (remove nst f n v rc na fo su p).1 = .refused) : (remove nst f n v rc na fo su p).2 = p := by
+  unfold remove at h ⊢
+  cases hf : p.mem.findIn (allStacks nst) n v f with
+  | none => rfl
+  | some prod =>
+    rw [hf] at h
+    dsimp only at h ⊢
+    split
+    · rfl
+    · rename_i hrc
+      rw [if_neg hrc] at h
+      cases hu : undeclare nst ⟨f, n, some v, none, none, false, na, fo, su⟩ p with
+      | mk o p1 =>
+        rw [hu] at h
+        cases o with
+        | ok =>
+          exfalso
+          dsimp only at h
+          split at h
+          · cases h
+          · split at h <;> cases h
+        | refused =>
+          have := undeclare_refused (nst := nst) (a := ⟨f, n, some v, none, none, false, na, fo, su⟩) (p := p) (by rw [hu])
+          rw [hu] at this
+          simpa using this
+        | notFound => cases h
+        | failed => cases h
+        | tableMissing => cases h
+
+/-- **A refused command has done nothing**: whenever the outcome is `EupsException` (a conflicting
+redeclaration without force, no directory, no table file, several versions to choose from) the trace is the one
+the command started with. -/
+theorem run_refused (nst : Nat) (c : Cmd) (p : Proc) (h : (run nst c p).1 = .refused) : (run nst c p).2 = p := by
+  cases c with
+  | declare a => exact declare_refused h
+  | undeclare a => exact undeclare_refused h
+  | assignTag f t n v st =>
+    exfalso; simp only [run] at h
+    rcases assignTag_outcome f t n v (stacksOf nst st) p with h' | h' <;> rw [h'] at h <;> cases h
+  | unassignTag f t n v st na =>
+    exfalso; simp only [run] at h
+    rcases unassignTag_outcome nst f t n v st na p with h' | h' <;> rw [h'] at h <;> cases h
+  | remove f n v rc na fo su => exact remove_refused h
+  | query f => rfl
+
+/-- a conflicting redeclaration — another directory, or a table file where `none` was declared — without
+force and without a tag is refused -/
+theorem declare_conflict_refused {nst : Nat} {a : DeclareArgs} {p : Proc} {r : Resolved} {o : Decl}
+    (hr : resolveDeclare nst a p = some r) (hold : p.mem.findDecl r.target a.name a.ver a.self = some o)
+    (hforce : a.force = false) (htag : declareTag nst a p.mem = none)
+    (hdiff : o.dir ≠ r.d ∨ (r.table = .default ∧ o.table = .none)) :
+    declare nst a p = (.refused, p) := by
+  unfold declare
+  rw [hr]
+  dsimp only
+  have : redeclare (p.mem.findDecl r.target a.name a.ver a.self) r.d r.table (declareTag nst a p.mem).isSome a.force
+      (extDiff p a r.target) = .refuse := by
+    rw [hold, htag, hforce]
+    simp only [redeclare, Bool.false_eq_true, if_false, Option.isSome_none]
+    rcases hdiff with h | ⟨h1, h2⟩
+    · simp [h]
+    · simp [h1, h2]
+  rw [this]
+
+/-! ## what a successful command has done -/
+
+theorem Spec.hasDecl_delDecl_self (c : Spec) (s : Nat) (n : Name) (v : Ver) (f : Flav) :
+    (c.delDecl s n v f).hasDecl s n v f = false := by
+  cases h : (c.delDecl s n v f).hasDecl s n v f with
+  | false => rfl
+  | true =>
+    exfalso
+    obtain ⟨d, hd, hk⟩ := Spec.hasDecl_iff.mp h
+    have := (Spec.mem_delDecl_decls.mp hd).2
+    rw [hk] at this; exact Bool.noConfusion this
+
+theorem Spec.tagVer_setTag_self (c : Spec) (r : TagRec) :
+    (c.setTag r).tagVer r.stack r.tag r.name r.flav = some r.ver := by
+  have : r.hasKey r.stack r.tag r.name r.flav = true := by simp [TagRec.hasKey_iff]
+  simp [Spec.tagVer, Spec.setTag, this]
+
+theorem Spec.hasDecl_setTag (c : Spec) (r : TagRec) (s : Nat) (n : Name) (v : Ver) (f : Flav) :
+    (c.setTag r).hasDecl s n v f = c.hasDecl s n v f := rfl
+
+theorem untagFirst_hasDecl (nst : Nat) (a : UndeclareArgs) (v : Ver) (s : Nat) (p : Proc)
+    (s' : Nat) (n' : Name) (v' : Ver) (f' : Flav) :
+    (untagFirst nst a v s p).db.hasDecl s' n' v' f' = p.db.hasDecl s' n' v' f' := by
+  have hd : ∀ (t : Tag) (s0 : Nat) (na : Bool), (doUnassign a.self t a.name s0 na p).2.db.hasDecl s' n' v' f'
+      = p.db.hasDecl s' n' v' f' := by
+    intro t s0 na
+    unfold doUnassign
+    split
+    · rfl
+    · simp [applyDb, Spec.hasDecl]
+  unfold untagFirst
+  split
+  · unfold unassignTag
+    dsimp only
+    split
+    · rfl
+    · split
+      · exact hd _ _ _
+      · rfl
+  · rfl
+
+/-- **`undeclare` of a version**: when it succeeds (not a dry run, not the tag-only form) the version it chose —
+the one given, when one is given — was declared in the files of the stack, and afterwards neither the
+declaration nor any tag pointing at it is left in that stack. -/
+theorem undeclare_ok {nst : Nat} {a : UndeclareArgs} {p : Proc}
+    (hok : (undeclare nst a p).1 = .ok) (hna : a.noaction = false)
+    (hform : a.tag = none ∨ a.versionAndTag = true) :
+    ∃ s v, (∀ v', a.ver = some v' → v = v') ∧ p.db.hasDecl s a.name v a.self = true ∧
+      (undeclare nst a p).2.db.hasDecl s a.name v a.self = false ∧
+      ∀ r ∈ (undeclare nst a p).2.db.tags, r.pointsAt s a.name v a.self = false := by
+  have key : ∀ ver : Option Ver, (undeclareVersion nst a ver p).1 = .ok →
+      ∃ s v, (∀ v', ver = some v' → v = v') ∧ p.db.hasDecl s a.name v a.self = true ∧
+        (undeclareVersion nst a ver p).2.db.hasDecl s a.name v a.self = false ∧
+        ∀ r ∈ (undeclareVersion nst a ver p).2.db.tags, r.pointsAt s a.name v a.self = false := by
+    intro ver hk
+    unfold undeclareVersion at hk ⊢
+    cases hi : inferVersion nst a ver p.mem with
+    | error o =>
+      rw [hi] at hk; dsimp only at hk
+      exfalso
+      cases ver with
+      | some v => simp [inferVersion] at hi
+      | none =>
+        simp only [inferVersion] at hi
+        split at hi <;> cases hi <;> cases hk
+    | ok v =>
+      rw [hi] at hk; dsimp only at hk ⊢
+      cases hf : p.mem.findIn (stacksOf nst a.stack) a.name v a.self with
+      | none => rw [hf] at hk; cases hk
+      | some prod =>
+        rw [hf] at hk; dsimp only at hk ⊢
+        by_cases hset : (isSetup a p.mem prod.stack v && !a.force) = true
+        · rw [if_pos hset] at hk; cases hk
+        rw [if_neg hset] at hk ⊢
+        unfold removeVersion at hk ⊢
+        rw [hna] at hk ⊢
+        simp only [Bool.false_eq_true, if_false] at hk ⊢
+        by_cases hd : (untagFirst nst a v prod.stack p).db.hasDecl prod.stack a.name v a.self = true
+        · simp only [hd, Bool.not_true, Bool.false_eq_true, if_false, Proc.db_emit, applyDb]
+          refine ⟨prod.stack, v, inferVersion_some hi, ?_, Spec.hasDecl_delDecl_self _ _ _ _ _, ?_⟩
+          · rw [← untagFirst_hasDecl nst a v prod.stack p]; exact hd
+          · intro r hr; exact (Spec.mem_delDecl_tags.mp hr).2
+        · simp only [hd, Bool.not_false, if_true] at hk
+          cases hk
+  unfold undeclare at hok ⊢
+  cases ht : a.tag with
+  | none => rw [ht] at hok; exact key _ hok
+  | some t =>
+    rw [ht] at hok
+    dsimp only at hok ⊢
+    have hvat : a.versionAndTag = true := by
+      rcases hform with h | h
+      · rw [ht] at h; cases h
+      · exact h
+    rw [hvat] at hok ⊢
+    simp only [if_true] at hok ⊢
+    obtain ⟨s, v, h1, h2, h3, h4⟩ := key _ hok
+    refine ⟨s, v, ?_, h2, h3, h4⟩
+    intro v' hv'
+    apply h1
+    simp [hv']
+
+/-- **Direct `assignTag`**: when it succeeds the tag names the version in the stack where the product was
+found (the first of `stacks` that the in-memory view shows it in). -/
+theorem assignTag_ok {f : Flav} {t : Tag} {n : Name} {v : Ver} {stacks : List Nat} {p : Proc}
+    (hok : (assignTag f t n v stacks p).1 = .ok) :
+    ∃ s, (∃ prod, p.mem.findIn stacks n v f = some prod ∧ prod.stack = s) ∧
+      (assignTag f t n v stacks p).2.db.tagVer s t n f = some v ∧
+      (assignTag f t n v stacks p).2.db.hasDecl s n v f = true := by
+  unfold assignTag at hok ⊢
+  cases hf : p.mem.findIn stacks n v f with
+  | none => rw [hf] at hok; cases hok
+  | some prod =>
+    rw [hf] at hok
+    dsimp only at hok ⊢
+    by_cases hd : p.db.hasDecl prod.stack n v f = true
+    · simp only [hd, Bool.not_true, Bool.false_eq_true, if_false, Proc.db_emit, applyDb, Spec.assign, if_true]
+      exact ⟨prod.stack, ⟨prod, rfl, rfl⟩, Spec.tagVer_setTag_self p.db ⟨prod.stack, t, n, f, v⟩, hd⟩
+    · simp only [hd, Bool.not_false, if_true] at hok
+      cases hok
+
+theorem findIn_singleton {c : Spec} {s : Nat} {n : Name} {v : Ver} {f : Flav} {d : Decl}
+    (h : c.findIn [s] n v f = some d) : d.stack = s := by
+  simp only [Spec.findIn, List.findSome?_cons, List.findSome?_nil] at h
+  cases hd : c.findDecl s n v f with
+  | none => rw [hd] at h; cases h
+  | some x =>
+    rw [hd] at h
+    cases h
+    unfold Spec.findDecl at hd
+    have := List.find?_some hd
+    exact (Decl.hasKey_iff.mp this).1
+
+/-- **`declare` with a tag** — the one given, or `current` for the first version of the product: when it
+succeeds (not a dry run) the version is declared in the stack it resolved to and the tag names it there. -/
+theorem declare_ok_tag {nst : Nat} {a : DeclareArgs} {p : Proc} {t : Tag}
+    (hok : (declare nst a p).1 = .ok) (hna : a.noaction = false) (htag : declareTag nst a p.mem = some t) :
+    ∃ r, resolveDeclare nst a p = some r ∧
+      (declare nst a p).2.db.tagVer r.target t a.name a.self = some a.ver ∧
+      (declare nst a p).2.db.hasDecl r.target a.name a.ver a.self = true := by
+  rcases declare_cases nst a p with hc | ⟨r, rd, hr, _, _, hc⟩
+  · rw [hc] at hok; cases hok
+  · rw [hc] at hok ⊢
+    refine ⟨r, hr, ?_⟩
+    rw [declareFinish_fst] at hok
+    rw [declareFinish_db]
+    unfold declareCore at hok ⊢
+    rw [htag, hna] at hok ⊢
+    simp only [Bool.false_eq_true, if_false] at hok ⊢
+    obtain ⟨s, ⟨prod, hfind, hs⟩, h1, h2⟩ := assignTag_ok hok
+    have : s = r.target := by rw [← hs]; exact findIn_singleton hfind
+    rw [this] at h1 h2
+    exact ⟨h1, h2⟩
+
+/-! ## commands only extend the trace -/
+
+/-- `q` runs from the same start as `p` -/
+def SameBase (p q : Proc) : Prop := q.db0 = p.db0 ∧ q.mem0 = p.mem0 ∧ q.dirs = p.dirs ∧ q.extras = p.extras
+
+theorem SameBase.refl (p : Proc) : SameBase p p := ⟨rfl, rfl, rfl, rfl⟩
+theorem SameBase.emit {p q : Proc} (h : SameBase p q) (e : Eff) : SameBase p (q.emit e) := h
+theorem SameBase.trans {p q r : Proc} (h : SameBase p q) (k : SameBase q r) : SameBase p r :=
+  ⟨k.1.trans h.1, k.2.1.trans h.2.1, k.2.2.1.trans h.2.2.1, k.2.2.2.trans h.2.2.2⟩
+
+theorem doUnassign_base (f : Flav) (t : Tag) (n : Name) (s : Nat) (na : Bool) (p : Proc) :
+    SameBase p (doUnassign f t n s na p).2 := by
+  unfold doUnassign; split
+  · exact SameBase.refl p
+  · exact (SameBase.refl p).emit _
+
+theorem purge_base (f : Flav) (t : Tag) (n : Name) (ds : List Decl) (p : Proc) : SameBase p (purge f t n ds p) := by
+  induction ds generalizing p with
+  | nil => exact SameBase.refl p
+  | cons d ds ih => exact (doUnassign_base f t n d.stack false p).trans (ih _)
+
+theorem purgeAll_base (nst : Nat) (f : Flav) (t : Tag) (n : Name) (ss : List Nat) (p : Proc) :
+    SameBase p (purgeAll nst f t n ss p) := by
+  induction ss generalizing p with
+  | nil => exact SameBase.refl p
+  | cons s ss ih => exact (purge_base f t n _ p).trans (ih _)
+
+theorem assignTag_base (f : Flav) (t : Tag) (n : Name) (v : Ver) (stacks : List Nat) (p : Proc) :
+    SameBase p (assignTag f t n v stacks p).2 := by
+  unfold assignTag
+  split
+  · exact SameBase.refl p
+  · split
+    · exact SameBase.refl p
+    · exact (SameBase.refl p).emit _
+
+theorem unassignTag_base (nst : Nat) (f : Flav) (t : Tag) (n : Name) (v : Option Ver) (st : Option Nat) (na : Bool)
+    (p : Proc) : SameBase p (unassignTag nst f t n v st na p).2 := by
+  unfold unassignTag
+  split
+  · split
+    · exact SameBase.refl p
+    · split
+      · exact doUnassign_base _ _ _ _ _ _
+      · exact SameBase.refl p
+  · split
+    · exact doUnassign_base _ _ _ _ _ _
+    · split
+      · exact doUnassign_base _ _ _ _ _ _
+      · split <;> exact SameBase.refl p
+
+theorem declareCore_base (nst : Nat) (a : DeclareArgs) (r : Resolved) (tag : Option Tag) (rd : Redeclare) (p : Proc) :
+    SameBase p (declareCore nst a r tag rd p).2 := by
+  unfold declareCore
+  dsimp only
+  have h1 : SameBase p (if (rd == .write && !a.noaction) = true then
+      p.emit (.declare ⟨r.target, a.name, a.ver, a.self, r.d, r.table⟩ tag) else p) := by
+    split
+    · exact (SameBase.refl p).emit _
+    · exact SameBase.refl p
+  split
+  · exact h1
+  · split
+    · exact h1
+    · exact (h1.trans (purgeAll_base _ _ _ _ _ _)).trans (assignTag_base _ _ _ _ _ _)
+
+theorem saveExtras_base (a : DeclareArgs) (target : Nat) (es : List (Str × Nat)) (p : Proc) :
+    SameBase p (saveExtras a target es p) := by
+  induction es generalizing p with
+  | nil => exact SameBase.refl p
+  | cons e es ih => exact ((SameBase.refl p).emit _).trans (ih _)
+
+theorem declareFinish_base (nst : Nat) (a : DeclareArgs) (r : Resolved) (tag : Option Tag) (rd : Redeclare) (p : Proc) :
+    SameBase p (declareFinish nst a r tag rd p).2 := by
+  have hc := declareCore_base nst a r tag rd p
+  unfold declareFinish
+  split
+  · rename_i p2 heq
+    rw [heq] at hc
+    split
+    · exact hc
+    · exact hc.trans (saveExtras_base _ _ _ _)
+  · exact hc
+
+theorem declare_base (nst : Nat) (a : DeclareArgs) (p : Proc) : SameBase p (declare nst a p).2 := by
+  rcases declare_cases nst a p with hc | ⟨r, rd, _, _, _, hc⟩
+  · rw [hc]; exact SameBase.refl p
+  · rw [hc]; exact declareFinish_base _ _ _ _ _ _
+
+theorem undeclareVersion_base (nst : Nat) (a : UndeclareArgs) (ver : Option Ver) (p : Proc) :
+    SameBase p (undeclareVersion nst a ver p).2 := by
+  unfold undeclareVersion
+  split
+  · exact SameBase.refl p
+  · split
+    · exact SameBase.refl p
+    · split
+      · exact SameBase.refl p
+      have h1 : ∀ v s, SameBase p (untagFirst nst a v s p) := by
+        intro v s; unfold untagFirst; split
+        · exact unassignTag_base _ _ _ _ _ _ _ _
+        · exact SameBase.refl p
+      have h2 : ∀ v s q, SameBase q (removeVersion a v s q).2 := by
+        intro v s q; unfold removeVersion; split
+        · exact SameBase.refl q
+        · split
+          · exact SameBase.refl q
+          · exact (SameBase.refl q).emit _
+      exact (h1 _ _).trans (h2 _ _ _)
+
+theorem undeclare_base (nst : Nat) (a : UndeclareArgs) (p : Proc) : SameBase p (undeclare nst a p).2 := by
+  unfold undeclare
+  split
+  · exact undeclareVersion_base _ _ _ _
+  · split
+    · exact undeclareVersion_base _ _ _ _
+    · exact unassignTag_base _ _ _ _ _ _ _ _
+
+theorem remove_base (nst : Nat) (f : Flav) (n : Name) (v : Ver) (rc na fo : Bool) (su : Option (Ver × Flav × Nat))
+    (p : Proc) : SameBase p (remove nst f n v rc na fo su p).2 := by
+  unfold remove
+  split
+  · exact SameBase.refl p
+  · split
+    · exact SameBase.refl p
+    have hu := undeclare_base nst ⟨f, n, some v, none, none, false, na, fo, su⟩ p
+    split
+    · rename_i p1 heq
+      rw [heq] at hu
+      split
+      · exact hu
+      · split
+        · exact hu.emit _
+        · exact hu
+    · exact hu
+
+/-- a command only appends to the trace: the state it started from stays on record -/
+theorem run_base (nst : Nat) (c : Cmd) (p : Proc) : SameBase p (run nst c p).2 := by
+  cases c with
+  | declare a => exact declare_base nst a p
+  | undeclare a => exact undeclare_base nst a p
+  | assignTag f t n v st => exact assignTag_base _ _ _ _ _ _
+  | unassignTag f t n v st na => exact unassignTag_base _ _ _ _ _ _ _ _
+  | remove f n v rc na fo su => exact remove_base _ _ _ _ _ _ _ _ _
+  | query f => exact SameBase.refl p
+
+/-! ## what `findProducts` lists comes from the view -/
+
+theorem mem_uniqNVF {l : List Decl} {d : Decl} (h : d ∈ uniqNVF l) : d ∈ l := by
+  induction l with
+  | nil => simp [uniqNVF] at h
+  | cons x xs ih =>
+    simp only [uniqNVF, List.mem_cons, List.mem_filter] at h
+    rcases h with h | h
+    · exact List.mem_cons.mpr (Or.inl h)
+    · exact List.mem_cons_of_mem _ (ih h.1)
+
+theorem mem_insertByVer {x d : Decl} {l : List Decl} : d ∈ insertByVer x l ↔ d = x ∨ d ∈ l := by
+  induction l with
+  | nil => simp [insertByVer]
+  | cons y ys ih =>
+    simp only [insertByVer]
+    split
+    · simp
+    · simp only [List.mem_cons, ih]
+      constructor
+      · rintro (h | h | h)
+        · exact Or.inr (Or.inl h)
+        · exact Or.inl h
+        · exact Or.inr (Or.inr h)
+      · rintro (h | h | h)
+        · exact Or.inr (Or.inl h)
+        · exact Or.inl h
+        · exact Or.inr (Or.inr h)
+
+theorem mem_sortByVer {d : Decl} {l : List Decl} : d ∈ sortByVer l ↔ d ∈ l := by
+  induction l with
+  | nil => simp [sortByVer]
+  | cons y ys ih => simp only [sortByVer, mem_insertByVer, ih, List.mem_cons]
+
+theorem mem_versionsOf {c : Spec} {s : Nat} {n : Name} {f : Flav} {d : Decl} :
+    d ∈ c.versionsOf s n f ↔ d ∈ c.decls ∧ d.stack = s ∧ d.name = n ∧ d.flav = f := by
+  simp [Spec.versionsOf, mem_sortByVer, List.mem_filter, and_assoc]
+
+theorem findDecl_some {c : Spec} {s : Nat} {n : Name} {v : Ver} {f : Flav} {d : Decl}
+    (h : c.findDecl s n v f = some d) : d ∈ c.decls ∧ d.stack = s ∧ d.name = n ∧ d.ver = v ∧ d.flav = f := by
+  unfold Spec.findDecl at h
+  have hk := List.find?_some h
+  exact ⟨List.mem_of_find?_eq_some h, Decl.hasKey_iff.mp hk⟩
+
+theorem findTagged_some {c : Spec} {stacks : List Nat} {n : Name} {t : Tag} {f : Flav} {d : Decl}
+    (h : c.findTagged stacks n t f = some d) : d ∈ c.decls ∧ d.name = n ∧ d.flav = f ∧ d.stack ∈ stacks := by
+  unfold Spec.findTagged at h
+  obtain ⟨s, hs, hd⟩ := List.exists_of_findSome?_eq_some h
+  split at hd
+  · cases hd
+  · have := findDecl_some hd
+    exact ⟨this.1, this.2.2.1, this.2.2.2.2, this.2.1 ▸ hs⟩
+
+theorem mem_findProducts {m : Spec} {nst : Nat} {self : Flav} {n : Name} {tag : Option Tag} {stacks : List Nat}
+    {d : Decl} (h : d ∈ findProducts m nst self n tag stacks) : d ∈ m.decls ∧ d.name = n := by
+  unfold findProducts at h
+  have h := mem_uniqNVF h
+  simp only [List.mem_flatMap] at h
+  obtain ⟨s, _, fl, _, hd⟩ := h
+  split at hd
+  · simp at hd
+  · split at hd
+    · have := mem_versionsOf.mp hd; exact ⟨this.1, this.2.2.1⟩
+    · simp only [List.mem_append, Option.mem_toList, List.mem_filter] at hd
+      rcases hd with hd | hd
+      · have := findTagged_some hd; exact ⟨this.1, this.2.1⟩
+      · have := mem_versionsOf.mp hd.1; exact ⟨this.1, this.2.2.1⟩
+
+theorem uniqNVF_ne_nil {l : List Decl} (h : l ≠ []) : uniqNVF l ≠ [] := by
+  cases l with
+  | nil => exact absurd rfl h
+  | cons x xs => simp [uniqNVF]
+
+/-- a declaration that the view shows in a stack of the path, in the native flavor, makes the product's
+listing non-empty -/
+theorem findProducts_ne_nil {m : Spec} {nst : Nat} {self : Flav} {n : Name} {d : Decl}
+    (hd : d ∈ m.decls) (hs : d.stack < nst) (hn : d.name = n) (hf : d.flav = self) :
+    findProducts m nst self n none (allStacks nst) ≠ [] := by
+  unfold findProducts
+  apply uniqNVF_ne_nil
+  intro hnil
+  have hmem : d ∈ (allStacks nst).flatMap fun s => (fallbacks self).flatMap fun fl =>
+      if (m.versionsOf s n fl).isEmpty = true then [] else
+        match (none : Option Tag) with
+        | none => m.versionsOf s n fl
+        | some t => (m.findTagged (allStacks nst) n t self).toList ++
+            (m.versionsOf s n fl).filter fun d => (m.tagsOf d).contains t := by
+    simp only [List.mem_flatMap]
+    refine ⟨d.stack, by simpa [allStacks] using hs, self, by simp [fallbacks], ?_⟩
+    have hv : d ∈ m.versionsOf d.stack n self := mem_versionsOf.mpr ⟨hd, rfl, hn, hf⟩
+    have hne : (m.versionsOf d.stack n self).isEmpty = false := by
+      cases hl : m.versionsOf d.stack n self with
+      | nil => rw [hl] at hv; cases hv
+      | cons _ _ => rfl
+    simp [hne, hv]
+  rw [hnil] at hmem
+  cases hmem
+
+/-- argument resolution for the plain form `declare name version directory`: directory and its table file
+exist, no tag, no stack argument, the directory lies in a stack of the path -/
+theorem resolveDeclare_explicit {nst : Nat} {a : DeclareArgs} {p : Proc} {d : Dir}
+    (hdir : a.dir = some d) (htag : a.tag = none) (htn : a.tableNone = false) (hstack : a.stack = none)
+    (hex : p.dirExists d = true) (htab : p.tableExists d a.name = true) (hroot : d.root < nst) :
+    resolveDeclare nst a p = some ⟨d, .default, d.root⟩ := by
+  unfold resolveDeclare resolveDirTable targetOf
+  simp [hdir, htag, htn, hstack, hex, htab, hroot]
 
 end EupsModel.Db
